@@ -24,7 +24,7 @@ package clusters
 //@ const curPolicies = (typeis(c.currentDispatchPolicies.v, "[]proxyv1alpha1.DispatchPolicy") ? unbox(c.currentDispatchPolicies.v, "[]proxyv1alpha1.DispatchPolicy") : emptyseq("proxyv1alpha1.DispatchPolicy"))
 //@ const picked = unbox(result, "*endpointPickStrategy")
 
-//@ func (*ClusterInfo).MatchAttributes props C01, C03, C05
+//@ func (*ClusterInfo).MatchAttributes props C01, C03, C05, C14
 //@   modifies nothing
 //@   ensures [limiter_of_policy] result1 == nil ==> (forall k int :: {old(curPolicies)[k]} 0 <= k && k < len(old(curPolicies)) && policyMatch(old(curPolicies)[k], requestAttributes) && (forall j int :: {old(curPolicies)[j]} 0 <= j && j < k ==> !policyMatch(old(curPolicies)[j], requestAttributes)) ==> picked.flowControl == limiterFor(old(c.flowcontrol), old(curPolicies)[k].FlowControlSchemaName))
 //@   ensures [no_match_err] result1 != nil <==> (forall i int :: {old(curPolicies)[i]} 0 <= i && i < len(old(curPolicies)) ==> !policyMatch(old(curPolicies)[i], requestAttributes))
